@@ -61,6 +61,9 @@ pub fn configs(tier: Tier) -> Vec<String> {
                         continue;
                     }
                     v.push(format!("lock={},shared={},fair={},init={}", lock, shared, fair, init));
+                    if init == 0 && lock == "local" {
+                        v.push(format!("lock={},shared={},fair={},init={},big=1", lock, shared, fair, init));
+                    }
                 }
             }
         }
@@ -70,7 +73,7 @@ pub fn configs(tier: Tier) -> Vec<String> {
 
 pub fn scenarios(cfg: &str) -> Vec<Vec<Ev>> {
     let e = Ev::new;
-    if cfg_num(cfg, "init", 0) != 0 {
+    if cfg_num(cfg, "init", 0) != 0 || cfg_num(cfg, "big", 0) == 1 {
         return vec![];
     }
     vec![
@@ -170,6 +173,7 @@ pub struct SemInner<A: SemApi> {
     sem: A,
     fair: bool,
     bounded: bool,
+    big: bool,
     slots: Slots<A::Fut>,
     /// (releaser, armed amount the harness expects it to return)
     rels: Vec<(A::Rel, usize)>,
@@ -184,6 +188,11 @@ const FREE_TOTAL: usize = 24;
 /// request sizes by index (index is what the event carries)
 const SIZES: [usize; 6] = [0, 1, 2, 3, 5, 8];
 const RELEASES: [usize; 5] = [0, 1, 2, 4, 7];
+/// `big=1` configurations: amounts around isize::MAX / usize::MAX (totals stay below usize::MAX / 2 + what is
+/// held, so that the crate's unchecked `permits += n` never overflows for real)
+const SIZES_BIG: [usize; 6] = [0, 1, 1 << 61, (isize::MAX as usize) + 2, usize::MAX, 3];
+const RELEASES_BIG: [usize; 5] = [0, 1, 1 << 60, 1 << 61, 2];
+const BIG_TOTAL: usize = 1 << 62;
 
 impl<A: SemApi> SemInner<A> {
     fn total(&self) -> usize {
@@ -253,11 +262,13 @@ impl<A: SemApi> SemInner<A> {
 impl<A: SemApi> SemInner<A> {
     fn new(cfg: &str, k: usize, bounded: bool) -> Self {
         let fair = cfg_num(cfg, "fair", 0) == 1;
-        let init = cfg_num(cfg, "init", 0) as usize;
+        let big = cfg_num(cfg, "big", 0) == 1 && !bounded;
+        let init = if big { (1usize << 61) + cfg_num(cfg, "init", 0) as usize } else { cfg_num(cfg, "init", 0) as usize };
         let mut c = SemInner {
             sem: A::new(fair, init),
             fair,
             bounded,
+            big,
             slots: Slots::new(k, 0),
             rels: vec![],
             model: init,
@@ -345,7 +356,7 @@ impl<A: SemApi> SemInner<A> {
         match ev.k {
             CREATE => {
                 let sem = &self.sem;
-                let n = SIZES[ev.b as usize];
+                let n = if self.big { SIZES_BIG[ev.b as usize] } else { SIZES[ev.b as usize] };
                 self.slots.create(a, &mut self.serial, ctx, n as u64, || sem.acquire(n));
             }
             POLL => {
@@ -398,7 +409,7 @@ impl<A: SemApi> SemInner<A> {
                 self.slots.drop_fut(a, ctx, 0);
             }
             TRY_ACQUIRE => {
-                let a = SIZES[a];
+                let a = if self.big { SIZES_BIG[a] } else { SIZES[a] };
                 let before = self.model;
                 let sem = &self.sem;
                 match call(ctx, "try_acquire", 0, 0, || sem.try_acquire(a)) {
@@ -418,7 +429,7 @@ impl<A: SemApi> SemInner<A> {
                 }
             }
             RELEASE => {
-                let a = RELEASES[a];
+                let a = if self.big { RELEASES_BIG[a] } else { RELEASES[a] };
                 let sem = &self.sem;
                 let mark = crate::wakers::log_mark();
                 call(ctx, "release", 0, 0, || sem.release(a));
